@@ -354,6 +354,13 @@ def _selection(ctx, P):
         ("three axes: the same with the complete partition listed first",
          {fs([AY, AZ]): [mvar("area_yz", [c("AY"), c("AZ")])], fs([AX]): [mvar("dxc", [c("AX")])], fs([AX, AY]): [mvar("area_xy", [c("AX"), c("AY")])]},
          [c("AX"), c("AY"), c("AZ")], (AX, AY, AZ), ["area_yz", "dxc"], 0),
+        # several factors registered only elsewhere - also with identical dimensions (2-D cell widths): each one is interpolated on its
+        # own; the interpolation of a product is not the product of the interpolations for non-uniform metrics
+        ("partition: two factors with the same dimensions registered only elsewhere -> each interpolated",
+         {fs([AX]): [mvar("dx2", [c("AX"), c("AY")])], fs([AY]): [mvar("dy2", [c("AX"), c("AY")])]}, [l("AX"), c("AY")], (AX, AY), ["INTERP(dx2)", "INTERP(dy2)"], 1),
+        ("partition: three factors, two of them with the same dimensions registered only elsewhere",
+         {fs([AX]): [mvar("dx2", [c("AX"), c("AY")])], fs([AY]): [mvar("dy2", [c("AX"), c("AY")])], fs([AZ]): [mvar("dz", [c("AZ")])]}, [l("AX"), c("AY"), c("AZ")], (AZ, AX, AY),
+         ["INTERP(dx2)", "INTERP(dy2)", "dz"], 1),
         ("nothing registered for an axis", {fs([AX]): full[fs([AX])]}, [c("AX"), c("AY")], (AX, AY), "raise", 0),
         # a metric of a larger axis set is not a metric of the requested one, whatever was registered first
         ("only a superset of the requested axes is registered", {fs([AX, AY]): full[fs([AX, AY])]}, [c("AX"), c("AY")], (AX,), "raise", 0),
@@ -400,6 +407,9 @@ def _selection(ctx, P):
                 bad = "a metric registered at the array's position exists but an interpolated one / a warning is produced"
             for e in interps:
                 b = e[1]
+                src = b.get("array")
+                if isinstance(src, Obj) and any(x[0] in ("mult", "rmult") and isinstance(x[1], Obj) for x in src.eff):
+                    bad = bad or f"a product of metrics ({factors(src) or src!r}) is interpolated as a whole instead of each factor on its own"
                 if b.get("boundary") != "extend" or b.get("fill_value") is not None:
                     bad = bad or f"metrics are interpolated with boundary={b.get('boundary')!r}, fill_value={b.get('fill_value')!r} instead of nearest-value extension"
                 if not (isinstance(b.get("like"), Obj) and b["like"].name == "arr"):
